@@ -306,4 +306,12 @@ example : sflFlags [mk 0 0 d0 (.buy 10 10 0 1 none), mk 100 1 d0 (.sell 10 8 0 1
 example : ((deltaList d0 none [mk 0 0 d0 (.buy 10 10 0 1 none), mk 100 1 d0 (.sell 10 8 0 1 none none),
       mk 110 2 d0 (.buy 4 9 0 1 none)]).1.map (fun d => (d.gain, d.sfl.map (fun s => (s.loss, s.num, s.den))))) =
     [(none, none), (some (-12), some (-8, 4, 10)), (none, none), (none, none)] := by decide +kernel
+/-- **C02 (the comparisons the model uses are the source's).**  Regenerated from the source on
+    every run: the tolerance test is a strict `>` (a difference of exactly 0.001 is accepted); the
+    forward scan stops at the first row settling strictly after the last day of the window and the
+    backward scan at the first row settling strictly before its first day (both edge days are
+    inside). -/
+theorem C02_comparisons_match_source :
+    Gen.sflDiffOp = ">" ∧ Gen.sflFwdBreakOp = ">" ∧ Gen.sflBwdBreakOp = "<" := by decide
+
 end Acb
